@@ -289,7 +289,7 @@ def build(seed, tier, log=vp.log):
 # what the stream is made from: the generators, the harness, the corpus and the library modules that build, run
 # and parse it - not the per-property checks (lib/props) nor the manifest/design tools, which only read it
 STREAM_INPUTS = ["tools/gen.py", "tools/gen_invalid.py", "tools/sexp2coq.py", "tools/extract_facts.py", "tools/templates",
-                 "lib/stream.py", "lib/genrun.py", "lib/canon.py", "lib/vp.py", "lib/decls.py", "lib/assertgen.py", "lib/termstream.py",
+                 "lib/stream.py", "lib/genrun.py", "lib/canon.py", "lib/vp.py", "lib/decls.py", "lib/assertgen.py",
                  "ocaml", "harness", "corpus"]
 
 
